@@ -1,9 +1,236 @@
+// c09: tail calls are free and invisible.
+//
+// Generates self-recursive function shapes over all tail contexts (shapes.go), runs them on the real
+// interpreter at several recursion depths and writes, for the extracted model (coq/Model/RefSemTco.v:
+// eval_tco = the optimisation, eval = the reference semantics without it),
+//
+//	ID <TAB> fuel=.. rfuel=.. PREFIX-PROGRAM <TAB> IMPL-OBSERVABLE
+//
+// Comparisons that need the interpreter twice are made here and reported in the stats file
+// (key "failures"): the same function rendered so that it can never take the jump (twin), the
+// high-water marks of the four VM stacks at depth 10 against deeper runs, the scaling oracle for
+// the depths the model cannot reach, and the raw templates outside the modelled core.
 package main
 
 import (
+	"encoding/json"
 	"fmt"
 	"os"
+	"sort"
+	"strings"
+
+	"github.com/glycerine/zygomys/v9/zygo"
+	"verif/harness/lib"
+	r "verif/harness/refgen"
 )
+
+type Failure struct {
+	Kind     string `json:"kind"`
+	Shape    string `json:"shape"`
+	Depth    int    `json:"depth"`
+	Source   string `json:"source,omitempty"`
+	Impl     string `json:"implementation"`
+	Expected string `json:"expected"`
+	Note     string `json:"note,omitempty"`
+	Size     int    `json:"size"`
+}
+
+type hw [4]int // data, scope, addr, loop
+
+func (h hw) String() string { return fmt.Sprintf("%d,%d,%d,%d", h[0], h[1], h[2], h[3]) }
+
+type Harness struct {
+	run      *r.Runner
+	out      *lib.Out
+	failures []Failure
+	info     map[string]interface{}
+	counts   map[string]int
+}
+
+// measure evaluates src and returns the observable and the high-water marks of the four stacks.
+func (h *Harness) measure(src string, budget int64) (string, hw) {
+	var m hw
+	h.run.Budget = budget
+	zygo.VerifTrace = func(env *zygo.Zlisp, phase int, instr zygo.Instruction, err error) {
+		d, s, a, l := env.VerifDepths()
+		if d > m[0] {
+			m[0] = d
+		}
+		if s > m[1] {
+			m[1] = s
+		}
+		if a > m[2] {
+			m[2] = a
+		}
+		if l > m[3] {
+			m[3] = l
+		}
+	}
+	obs := h.run.RunSource(src, 0)
+	zygo.VerifTrace = nil
+	return obs, m
+}
+
+func (h *Harness) eval(src string, budget int64) string {
+	h.run.Budget = budget
+	return h.run.RunSource(src, 0)
+}
+
+func (h *Harness) fail(f Failure) {
+	h.failures = append(h.failures, f)
+}
+
+func budgetFor(depth int) int64 { return int64(depth)*700 + 200000 }
+
+func sumTo(d int) int64 { return int64(d) * int64(d+1) / 2 }
+
+// scale rewrites the observable of depth `from` into what depth `to` must give: only the traced
+// sum differs (closures are collected while n < 3, the other effects do not depend on the depth).
+func scale(obs string, from, to int) string {
+	return strings.ReplaceAll(obs, fmt.Sprintf("Ysa,I%d", sumTo(from)), fmt.Sprintf("Ysa,I%d", sumTo(to)))
+}
+
+// shape runs one shape over the small depths (model cases + twin), and over the deep ones.
+func (h *Harness) shape(sh Shape, small []int, deep []int, twinDeep int, modelDeep bool) {
+	name := sh.String()
+	size := len(sh.Ctx)*10 + 1
+	if sh.Pre != "none" {
+		size += 3
+	}
+	if sh.Base != "val" {
+		size += 2
+	}
+	var obs10 string
+	var hw10 hw
+	have10 := false
+	for _, d := range small {
+		p := sh.Program(d)
+		src := p.Source(r.Style{})
+		obs, m := h.measure(src, budgetFor(d))
+		h.counts["shape-runs"]++
+		h.out.Case(fmt.Sprintf("fuel=%d rfuel=%d shape=%s depth=%d %s", sh.TcoFuel(d), sh.RefFuel(d), name, d, p.Prefix()), obs,
+			true, "ctx-nest:"+fmt.Sprint(len(sh.Ctx)), "pre:"+sh.Pre, "base:"+sh.Base, fmt.Sprintf("depth:%d", d))
+		tw := h.eval(Twin(p).Source(r.Style{}), budgetFor(d))
+		h.counts["twin-comparisons"]++
+		if !r.SameObs(obs, tw) {
+			h.fail(Failure{"twin", name, d, src, obs, tw, "the function rendered with ((begin f) ..) for the self call (never a jump) gives another observable", size + d})
+		}
+		if d == 10 {
+			obs10, hw10, have10 = obs, m, true
+		}
+	}
+	if !have10 {
+		return
+	}
+	for _, d := range deep {
+		p := sh.Program(d)
+		src := p.Source(r.Style{})
+		obs, m := h.measure(src, budgetFor(d))
+		h.counts["deep-runs"]++
+		h.out.Dist[fmt.Sprintf("deep-depth:%d", d)]++
+		if modelDeep && d <= 1000 {
+			h.out.Case(fmt.Sprintf("fuel=%d rfuel=%d shape=%s depth=%d %s", sh.TcoFuel(d), sh.RefFuel(d), name, d, p.Prefix()), obs,
+				true, "ctx-nest:"+fmt.Sprint(len(sh.Ctx)), "pre:"+sh.Pre, "base:"+sh.Base, fmt.Sprintf("depth:%d", d))
+		}
+		if obs == "BUDGET" || strings.HasPrefix(obs, "PANIC") {
+			h.fail(Failure{"deep-incomplete", name, d, src, obs, scale(obs10, 10, d), "deep tail recursion did not complete", size + 20})
+			continue
+		}
+		if want := scale(obs10, 10, d); obs != want {
+			h.fail(Failure{"deep-value", name, d, src, obs, want, "observable at this depth differs from the depth-10 observable with the traced sum replaced by D(D+1)/2", size + 20})
+		}
+		if m != hw10 {
+			h.fail(Failure{"space", name, d, src, "high-water marks data,scope,addr,loop = " + m.String(), "as at depth 10 = " + hw10.String(),
+				"the stacks grow with the recursion depth", size + 20})
+		}
+		h.counts["space-comparisons"]++
+		if twinDeep > 0 && d == deep[0] {
+			pt := sh.Program(twinDeep)
+			o1 := h.eval(pt.Source(r.Style{}), budgetFor(twinDeep))
+			o2 := h.eval(Twin(pt).Source(r.Style{}), budgetFor(twinDeep)*3)
+			h.counts["twin-comparisons"]++
+			if !r.SameObs(o1, o2) {
+				h.fail(Failure{"twin", name, twinDeep, pt.Source(r.Style{}), o1, o2, "twin differs", size + 15})
+			}
+		}
+	}
+}
+
+func (h *Harness) templates(depths []int) {
+	for _, t := range Templates {
+		for _, d := range depths {
+			src := t.Source(d, false)
+			o1 := h.eval(src, 300000)
+			o2 := h.eval(t.Source(d, true), 300000)
+			h.counts["template-comparisons"]++
+			tag := "template:nontail"
+			if t.Tail {
+				tag = "template:tail"
+			}
+			h.out.Dist[tag]++
+			if strings.HasPrefix(o1, "PANIC") || !r.SameObs(o1, o2) {
+				h.fail(Failure{"template", t.Name, d, src, o1, o2, "the same function with the self call written ((begin f) ..) gives another observable", 5 + d})
+			}
+			if d == 3 {
+				h.info["template "+t.Name] = o1
+			}
+		}
+	}
+}
+
+// sanity: the probe sees growth where there is growth (the twin), and records (not a violation)
+// that mutual tail calls and calls through an alias are not optimised.
+func (h *Harness) sanity() {
+	sh := Shape{Pre: "none", Base: "val"}
+	_, a := h.measure(Twin(sh.Program(10)).Source(r.Style{}), budgetFor(10))
+	_, b := h.measure(Twin(sh.Program(60)).Source(r.Style{}), budgetFor(60))
+	h.info["twin_hwm_depth10"] = a.String()
+	h.info["twin_hwm_depth60"] = b.String()
+	if !(b[1] > a[1] && b[2] > a[2]) {
+		h.fail(Failure{"probe-blind", sh.String(), 60, "", b.String(), "> " + a.String(), "the non-optimised twin shows no stack growth: the space probe is blind", 1000})
+	}
+	mut := func(d int) string {
+		return fmt.Sprintf("(defn ev [n] (cond (== n 0) true (od (- n 1)))) (defn od [n] (cond (== n 0) false (ev (- n 1)))) (ev %d)", d)
+	}
+	_, a = h.measure(mut(10), budgetFor(10))
+	_, b = h.measure(mut(60), budgetFor(60))
+	h.info["mutual_tail_calls_grow"] = b[2] > a[2]
+	alias := func(d int) string {
+		return fmt.Sprintf("(defn g [n] (cond (== n 0) 7 (h (- n 1)))) (def h g) (g %d)", d)
+	}
+	_, a = h.measure(alias(10), budgetFor(10))
+	_, b = h.measure(alias(60), budgetFor(60))
+	h.info["alias_tail_calls_grow"] = b[2] > a[2]
+}
+
+// shadow programs: the function's own name is rebound (finding tco-by-name); they go to the model,
+// whose strict run names the deviation.
+var shadowPrograms = []func(d int) *r.Program{
+	func(d int) *r.Program { // let-bound f
+		return &r.Program{Forms: []*r.Node{
+			r.Defn("f", []string{"x"}, "", r.Let(false, []string{"f"}, []*r.Node{r.Fn([]string{"y"}, "", r.Int(42))},
+				r.Cond(call(">", r.Var("x"), r.Int(0)), call("f", r.Int(0)), r.Int(5)))),
+			call("f", r.Int(int64(d)))}}
+	},
+	func(d int) *r.Program { // def inside the body
+		return &r.Program{Forms: []*r.Node{
+			r.Defn("f", []string{"n"}, "", r.Cond(call("==", r.Var("n"), r.Int(0)), r.Int(100),
+				r.Begin(r.Def("f", r.Fn([]string{"a"}, "", r.Int(7))), call("f", call("-", r.Var("n"), r.Int(1)))))),
+			call("f", r.Int(int64(d)))}}
+	},
+	func(d int) *r.Program { // redefined at top level while an alias runs the old body
+		return &r.Program{Forms: []*r.Node{
+			r.Defn("f", []string{"n"}, "", r.Cond(call("==", r.Var("n"), r.Int(0)), r.Int(1), call("f", call("-", r.Var("n"), r.Int(1))))),
+			r.Def("g", r.Var("f")),
+			r.Defn("f", []string{"n"}, "", r.Int(42)),
+			call("g", r.Int(int64(d)))}}
+	},
+	func(d int) *r.Program { // parameter named like the function
+		return &r.Program{Forms: []*r.Node{
+			r.Defn("f", []string{"f"}, "", r.Cond(call("==", r.Var("f"), r.Int(0)), r.Int(1), call("f", r.Int(0)))),
+			call("f", r.Int(int64(d)))}}
+	},
+}
 
 func main() {
 	if len(os.Args) > 1 && os.Args[1] == "--probe" {
@@ -14,4 +241,138 @@ func main() {
 		probeMode(b)
 		return
 	}
+	args := lib.ParseArgs()
+	h := &Harness{run: r.NewRunner(200000), out: lib.NewOut(args.Out), info: map[string]interface{}{}, counts: map[string]int{}}
+	r.WatchdogSeconds = 600
+	rng := lib.NewRng(args.Seed)
+	thorough := args.Tier == "thorough"
+	small := []int{0, 1, 2, 3, 10}
+
+	if args.Replay != "" {
+		replay(h, args.Replay)
+		return
+	}
+
+	h.sanity()
+
+	// 1. every context list of nesting 0..2 (3 in thorough; a sample of 3 in quick) x pre x base
+	var shapes []Shape
+	for nest := 0; nest <= 3; nest++ {
+		for _, ctx := range AllCtx(nest) {
+			if nest <= 1 {
+				for _, pre := range PreKinds {
+					for _, base := range BaseKinds {
+						shapes = append(shapes, Shape{ctx, pre, base})
+					}
+				}
+				continue
+			}
+			if nest == 3 && !thorough && rng.Intn(8) != 0 {
+				continue
+			}
+			pre := PreKinds[rng.Intn(len(PreKinds))]
+			base := "val"
+			if rng.Intn(5) == 0 {
+				base = BaseKinds[rng.Intn(len(BaseKinds))]
+			}
+			shapes = append(shapes, Shape{ctx, pre, base})
+			if thorough {
+				shapes = append(shapes, Shape{ctx, PreKinds[rng.Intn(len(PreKinds))], "val"})
+			}
+		}
+	}
+	for i, sh := range shapes {
+		var deep []int
+		twinDeep := 0
+		modelDeep := false
+		switch {
+		case len(sh.Ctx) <= 1 && sh.Base == "val":
+			deep = []int{1000}
+			twinDeep = 150
+			modelDeep = sh.Pre == "none" || len(sh.Ctx) == 0
+		case thorough || i%5 == 0:
+			deep = []int{1000}
+			twinDeep = 150
+		}
+		h.shape(sh, small, deep, twinDeep, modelDeep)
+	}
+	h.out.Extra["shapes"] = len(shapes)
+
+	// 2. very deep runs: complete, same observable (scaled), same high-water marks
+	very := []Shape{{nil, "none", "val"}}
+	pick := func() Shape {
+		nest := 1 + rng.Intn(3)
+		ctx := make([]string, nest)
+		for i := range ctx {
+			ctx[i] = CtxKinds[rng.Intn(len(CtxKinds))]
+		}
+		return Shape{ctx, PreKinds[rng.Intn(len(PreKinds))], "val"}
+	}
+	very = append(very, pick())
+	if thorough {
+		for i := 0; i < 10; i++ {
+			very = append(very, pick())
+		}
+	}
+	for _, sh := range very {
+		h.shape(sh, []int{10}, []int{100000}, 0, false)
+	}
+	if thorough {
+		h.shape(Shape{[]string{"let", "and"}, "def", "val"}, []int{10}, []int{1000000}, 0, false)
+	}
+
+	// 3. templates outside the modelled core / non-tail contexts
+	h.templates([]int{0, 1, 2, 3, 4, 10})
+
+	// 4. the function's own name rebound (known finding tco-by-name): the model names the deviation
+	for i, mk := range shadowPrograms {
+		for _, d := range []int{0, 1, 2, 3} {
+			p := mk(d)
+			obs := h.eval(p.Source(r.Style{}), 200000)
+			h.out.Case(fmt.Sprintf("fuel=200 rfuel=200 shape=shadow%d depth=%d %s", i, d, p.Prefix()), obs, true, "shadow-program")
+		}
+	}
+
+	sort.SliceStable(h.failures, func(i, j int) bool { return h.failures[i].Size < h.failures[j].Size })
+	if len(h.failures) > 40 {
+		h.info["failures_total"] = len(h.failures)
+		h.failures = h.failures[:40]
+	}
+	h.out.Extra["failures"] = h.failures
+	h.out.Extra["info"] = h.info
+	h.out.Extra["counts"] = h.counts
+	h.out.Rule = "a case is non-trivial when its (shape, depth) program text is new; every shape contains a self tail call under the named contexts"
+	h.out.Close(args.Stats)
+}
+
+// replay re-runs one (shape, depth) or template from a replay file written by the check.
+func replay(h *Harness, path string) {
+	b, err := os.ReadFile(path)
+	if err != nil {
+		fmt.Println(err)
+		os.Exit(2)
+	}
+	var f struct {
+		Failure Failure `json:"failure"`
+		Input   string  `json:"input"`
+	}
+	json.Unmarshal(b, &f)
+	if f.Failure.Shape == "" && f.Input != "" {
+		for _, tok := range strings.Fields(f.Input) {
+			if strings.HasPrefix(tok, "shape=") {
+				f.Failure.Shape = tok[6:]
+			}
+			if strings.HasPrefix(tok, "depth=") {
+				fmt.Sscan(tok[6:], &f.Failure.Depth)
+			}
+		}
+	}
+	src := f.Failure.Source
+	if src == "" {
+		sh, _ := ParseShape(f.Failure.Shape)
+		src = sh.Program(f.Failure.Depth).Source(r.Style{})
+	}
+	obs, m := h.measure(src, budgetFor(f.Failure.Depth))
+	fmt.Printf("source: %s\nobservable: %s\nhigh-water marks (data,scope,addr,loop): %s\nrecorded: impl=%s expected=%s\n", src, obs, m, f.Failure.Impl, f.Failure.Expected)
+	h.out.Close("/dev/null")
 }
